@@ -19,7 +19,7 @@ func init() {
 }
 
 func runC14(c *core.Ctx) {
-	c.SetRule("cases: generated logs in every documented layout variant (indentation, dashes, quotes, CRLF, comments), names of many scripts with blanks, '/', punctuation, notes of both documented forms, repeated foods, periods x date layouts {2006/01/02, 2006-01-02, 02.01.2006, Jan 2 2006, 02/01/06} given by flag, by HR_DATE_FORMAT and by the configuration file. P = print output under options O. Oracle: print on P under O == P byte for byte; P parses (own parser) to the generator's days in order, foods merged, each value within half a cent of the exact sum, notes in normal form attached to the right day; csv log on P under O == rows expected from P (dates ISO, names exact, amounts of the form x.xx0 equal to what P shows). Non-trivial = log with a note or a repeated food; distinct = hash(log, options).")
+	c.SetRule("cases: generated logs in every documented layout variant (indentation, dashes, quotes, CRLF, comments), names of many scripts with blanks, '/', punctuation, notes of both documented forms, repeated foods, periods x date layouts {2006/01/02, 2006-01-02, 02.01.2006, Jan 2 2006, 02/01/06} given by flag, by HR_DATE_FORMAT and by the configuration file. P = print output under options O. Oracle: print on P under O == P byte for byte; P parses (own parser) to the generator's days in order, foods merged, each value within half a cent of the exact sum, notes in normal form attached to the right day; csv log on P under O == rows expected from P (dates ISO, names exact, amounts equal to the double nearest to what P shows, printed with three decimals). Non-trivial = log with a note or a repeated food; distinct = hash(log, options).")
 	c.Assume("the 3-decimal CSV of the original log is deliberately not the reference for the read-back (that would be double rounding)")
 	pool := newPool(c, c.Procs)
 	if pool == nil {
@@ -157,7 +157,14 @@ func runC14(c *core.Ctx) {
 		var want [][3]string
 		for k, d := range sel {
 			for _, en := range days[k].Ents {
-				want = append(want, [3]string{d.Date.ISO(), en.Name, en.Raw + "0"})
+				// what the tool must read back from P: the double nearest to the printed decimal, shown
+				// with three decimals (x.xx0 whenever doubles still resolve thousandths)
+				f, _ := en.V.Float64()
+				amt := fmt.Sprintf("%.3f", f)
+				if en.Raw == "-0.00" {
+					amt = "-0.000"
+				}
+				want = append(want, [3]string{d.Date.ISO(), en.Name, amt})
 			}
 		}
 		if len(rows) != len(want) {
